@@ -16,6 +16,7 @@ import (
 
 	"cqosverif/explore"
 	"cqosverif/harness"
+	"cqosverif/vrt"
 )
 
 var verifDir = func() string {
@@ -288,7 +289,7 @@ func runJob(self string, c harness.Cfg) *explore.Result {
 	cmd := exec.Command(self, "run", c.String())
 	cmd.Env = append(os.Environ(), "GOMAXPROCS=2", "GOGC=200")
 	raceLog := ""
-	if c.Harness == "race" {
+	if vrt.RaceBuild {
 		os.MkdirAll(filepath.Join(verifDir, ".build", "racelogs"), 0o755)
 		f, _ := os.CreateTemp(filepath.Join(verifDir, ".build", "racelogs"), "race-*")
 		raceLog = f.Name()
